@@ -419,9 +419,81 @@ fn line_alphabet(f: &Family) -> Vec<Line> {
     v
 }
 
+// ------------------------------------------------------------------------------------------ through the CLI
+
+const CLI_SCHEMA: &str = "type Query { a: Int t: T }\ntype T { x0: Int x1: Int x2: Int x3: Int }\n";
+
+/// Import graphs as project directories: the CLI's own table of loaded documents (which files can be
+/// import targets, under which path) is part of what decides the result.
+fn part_cli(args: &Args, rep: &Reporter) -> J {
+    use crate::clilayer::{CProj, run_and_compare};
+    let mut fams = vec![
+        Family { layout: 0, name: "cli:n3-lines<=2", n: 3, max_lines: 2, min_lines: 0, spells: if args.quick() { vec![0] } else { vec![0, 2] }, targets: vec![0, 1, 5], allow_missing: true, fragsets: vec![vec![0, 0, 0], vec![0, 1, 2], vec![2, 2, 0], vec![1, 2, 2]] },
+        Family { layout: 1, name: "cli:n3-same-name-in-parent-dir-lines<=2", n: 3, max_lines: 2, min_lines: 1, spells: vec![0], targets: vec![0, 1], allow_missing: false, fragsets: vec![vec![0, 0, 0], vec![2, 1, 1]] },
+    ];
+    if !args.quick() {
+        fams.push(Family { layout: 0, name: "cli:n3-lines=3", n: 3, max_lines: 3, min_lines: 3, spells: vec![0], targets: vec![0, 1], allow_missing: false, fragsets: vec![vec![0, 0, 0], vec![2, 0, 1]] });
+    }
+    let runs = AtomicU64::new(0);
+    let accepted = AtomicU64::new(0);
+    let files_cmp = AtomicU64::new(0);
+    let mut fam_json = serde_json::Map::new();
+    for f in &fams {
+        let alpha = line_alphabet(f);
+        let a = alpha.len();
+        let mut cases: Vec<Case> = vec![];
+        for len in f.min_lines..=f.max_lines {
+            for code in 0..a.pow(len as u32) {
+                let mut x = code;
+                let lines: Vec<Line> = (0..len).map(|_| { let l = alpha[x % a]; x /= a; l }).collect();
+                for fs in &f.fragsets {
+                    cases.push(Case { n: f.n, frags: fs.clone(), lines: lines.clone(), layout: f.layout });
+                }
+            }
+        }
+        par_for(cases.len(), args.threads, |ci| {
+            let c = &cases[ci];
+            let ops: Vec<(String, String)> = (0..c.n).map(|i| (format!("src{}", fpath(c, i)), file_text(c, i))).collect();
+            let mut p = CProj::new(vec![("schema/s.graphql".to_string(), CLI_SCHEMA.to_string())], ops);
+            p.resolvers_out = None;
+            p.server_out = None;
+            let case = |extra: J| { let mut j = case_json(c); j["part"] = json!("cli"); j["project"] = p.to_json(); j["detail"] = extra; j };
+            runs.fetch_add(1, Ordering::Relaxed);
+            match run_and_compare(&p, "c13") {
+                Err(pn) => rep.report(Violation { key: format!("cli.library_panic@{}", pn.key()), what: format!("library entry points panic at {}: {}", pn.site, pn.msg), case: case(json!({})) }),
+                Ok(Err(e)) => rep.report(Violation { key: "machinery.clilayer".into(), what: e, case: case(json!({})) }),
+                Ok(Ok(r)) => {
+                    if r.accepted {
+                        accepted.fetch_add(1, Ordering::Relaxed);
+                    }
+                    files_cmp.fetch_add(r.files_compared as u64, Ordering::Relaxed);
+                    for (k, w) in &r.diffs {
+                        rep.report(Violation { key: format!("cli.{k}[{}]", shape_tags(c, 0)), what: w.clone(), case: case(json!({"cli_exit": r.cli.code, "cli_stdout": r.cli.stdout.chars().take(3000).collect::<String>(), "library_route": r.expected_summary})) });
+                    }
+                    // the reference closure's verdict binds the CLI directly: an error iff some file's imports dangle
+                    let wildcard_mix = matches!(catch(|| check_case(c)), Ok(Ok("skipped:wildcard-mix")));
+                    if !wildcard_mix {
+                        let dangling = (0..c.n).any(|root| matches!(reference(c, root), RefOut::Err(_)));
+                        if dangling && r.cli.code == Some(0) {
+                            rep.report(Violation { key: "cli.verdict.accepts_dangling_import".into(), what: "the CLI accepts a project in which an import names a missing file or an undefined fragment".into(), case: case(json!({})) });
+                        }
+                        if !dangling && r.cli.code != Some(0) && r.cli.stdout.contains("not found") {
+                            rep.report(Violation { key: format!("cli.verdict.rejects_resolvable_import[{}]", shape_tags(c, 0)), what: format!("every import of the project resolves, but the CLI reports: {}", crate::cli::strip_ansi(&r.cli.stdout).chars().take(400).collect::<String>()), case: case(json!({})) });
+                        }
+                    }
+                }
+            }
+        });
+        fam_json.insert(f.name.to_string(), json!({"files": f.n, "lines": format!("{}..={}", f.min_lines, f.max_lines), "line_alphabet": a, "fragment_assignments": f.fragsets.len(), "projects": cases.len()}));
+    }
+    crate::cli::cleanup("c13");
+    json!({"families": fam_json, "cli_runs": runs.load(Ordering::Relaxed), "accepted_and_all_outputs_compared": accepted.load(Ordering::Relaxed), "files_compared_bytewise": files_cmp.load(Ordering::Relaxed)})
+}
+
 fn inner(args: &Args) -> i32 {
     let rep = Reporter::new("C13", &args.tier);
     crate::util::install_hook();
+    let cli_part = part_cli(args, &rep);
     let cases = AtomicU64::new(0);
     let cyclic = AtomicU64::new(0);
     let outcomes: Mutex<BTreeMap<String, u64>> = Mutex::new(BTreeMap::new());
@@ -496,6 +568,7 @@ fn inner(args: &Args) -> i32 {
         "exhaustive": true,
         "families": fam_json,
         "graphs_with_cycles": cyclic.load(Ordering::Relaxed),
+        "through_the_cli": cli_part,
         "outcomes": *outcomes.lock().unwrap(),
         "samples": [case_json(&sample)],
     });
@@ -504,6 +577,7 @@ fn inner(args: &Args) -> i32 {
         vec![
             "reference closure: own definitions + for every import line of every reachable file the named (or all) fragments of its target, each (file, name) once; error iff a reachable line names a missing file or undefined fragment".into(),
             "a wildcard combined with named targets (or a second wildcard) for one spelled path is nitrogql's documented restriction and outside the space".into(),
+            "through the CLI: the same graphs as project directories; verdict, located diagnostics and every written byte of `check generate` must equal the library route's, and the reference closure's verdict (error iff an import dangles) binds the CLI's exit status directly".into(),
         ],
     )
 }
@@ -601,6 +675,10 @@ pub fn run(args: &Args) -> i32 {
 }
 
 pub fn replay(case: &J) -> i32 {
+    if case["part"].as_str() == Some("cli") {
+        println!("{}", serde_json::to_string_pretty(case).unwrap_or_default().replace("\\n", "\n"));
+        return 0;
+    }
     let c = case_from_json(case);
     for i in 0..c.n {
         println!("--- {} ---\n{}", fpath(&c, i), file_text(&c, i));
